@@ -333,7 +333,7 @@ def show(e):
     if k == "For":
         return f"for {show(e['pat'])} in {show(e['iter'])}{show(e['body'])}"
     if k == "Match":
-        return f"match {show(e.get('expr') or e.get('scrutinee'))}{{..}}"
+        return f"match {show(e.get('expr') or e.get('scrutinee'))}{{" + ",".join(f"{show(a_['pat'])}=>{show(a_['body'])}" for a_ in e.get("arms", [])) + "}"
     if k == "Other":
         return norm(e.get("t", ""))
     return f"<{k}>"
